@@ -20,6 +20,8 @@ import time
 
 VERIF = os.path.dirname(os.path.dirname(os.path.abspath(__file__)))
 REPO = os.environ.get("VERIF_REPO", "/repo")
+# runs against a scratch tree (seeded changes, mutation tests) never touch the committed evidence/replays
+OUT = VERIF if REPO == "/repo" else os.path.join("/tmp", "verif_scratch_out", os.path.basename(REPO.rstrip("/")))
 MODULE = "github.com/sourcegraph/zoekt"
 TLA_JAR = "/opt/veriftools/tla/tla2tools.jar"
 TLA_CP = TLA_JAR + ":/opt/veriftools/tla/CommunityModules-deps.jar"
@@ -425,8 +427,8 @@ class Ctx:
                     print("KNOWN-FINDING: property=%s %s (%s)" % (self.pid, f.get("description", ""), f.get("id")), flush=True)
                 self.known_hits.append((f, signature))
                 return False
-        os.makedirs(os.path.join(VERIF, "replays"), exist_ok=True)
-        rp = os.path.join(VERIF, "replays", "%s_%d_%d.json" % (self.pid, self.seed, min(len(self.violations), 25)))
+        os.makedirs(os.path.join(OUT, "replays"), exist_ok=True)
+        rp = os.path.join(OUT, "replays", "%s_%d_%d.json" % (self.pid, self.seed, min(len(self.violations), 25)))
         if len(self.violations) <= 25:
             with open(rp, "w") as fh:
                 json.dump({"property": self.pid, "seed": self.seed, "tier": self.tier, "signature": signature,
@@ -467,8 +469,8 @@ class Ctx:
             "coverage": cov, "assumptions": self.assumptions, "wall_s": round(time.time() - self.t0, 1),
             "violations": len(self.violations),
         }
-        os.makedirs(os.path.join(VERIF, "evidence"), exist_ok=True)
-        with open(os.path.join(VERIF, "evidence", self.pid + ".json"), "w") as fh:
+        os.makedirs(os.path.join(OUT, "evidence"), exist_ok=True)
+        with open(os.path.join(OUT, "evidence", self.pid + ".json"), "w") as fh:
             json.dump(ev, fh, indent=1, default=str)
         for sg, n in sorted(self.sig_counts.items()):
             print("  violation-signature %s x%d" % (sg, n), flush=True)
